@@ -41,16 +41,15 @@ Theorem C20_decode_total : forall E bs,
 Proof. exact decode_total. Qed.
 Print Assumptions C20_decode_total.
 
-(** ** hangs: only a table without columns can make the row loop spin *)
-Theorem C20_decode_hang_refuted : load_result E0 file_zero_cols = Hang /\ blen file_zero_cols = 58.
-Proof. exact decode_hang_refuted. Qed.
-Print Assumptions C20_decode_hang_refuted.
-
-Theorem C20_decode_never_hangs : forall E bs,
-  (forall t1 d r, catalog_phase E bs = (t1, Ok d r) -> zero_cols (d_tables d) = false) ->
-  load_result E bs <> Hang.
+(** ** hangs: no byte string makes the loader spin.  The only input-free loop (rows of a table without
+    columns) is rejected; the 58-byte file that used to run 2^64-1 iterations now fails cleanly *)
+Theorem C20_decode_never_hangs : forall E bs, load_result E bs <> Hang.
 Proof. exact decode_never_hangs. Qed.
 Print Assumptions C20_decode_never_hangs.
+
+Theorem C20_zero_cols_rejected : load_result E0 file_zero_cols = Err (ECatalog 7) /\ blen file_zero_cols = 58.
+Proof. exact zero_cols_rejected. Qed.
+Print Assumptions C20_zero_cols_rejected.
 
 (** ** stack: [read_expression] recurses once per nesting level of a trigger's WHEN expression.
     For EVERY stack capacity there is a file of proportional size (2 bytes per level + 48) that
@@ -68,23 +67,18 @@ Theorem C20_no_stack_overflow_when_shallow : forall E bs,
 Proof. exact no_stack_overflow_when_shallow. Qed.
 Print Assumptions C20_no_stack_overflow_when_shallow.
 
-(** ** allocations.  "Every request is bounded by the file size" is false: *)
-Theorem C20_alloc_bounded_refuted :
-  blen file_big_prefix = 24 /\ load_trace E0 file_big_prefix = [Alloc 4294967295]
+(** ** allocations: every buffer the loader fills is within max(file size, 65535), whatever the outcome
+    ([read_string] no longer sizes its buffer from the length prefix); the 24-byte file whose prefix
+    says 4 GiB buffers nothing and is rejected *)
+Theorem C20_alloc_bounded : forall E bs, Forall (ev_le (bound bs)) (load_trace E bs).
+Proof. exact alloc_bounded. Qed.
+Print Assumptions C20_alloc_bounded.
+
+Theorem C20_big_prefix_rejected :
+  blen file_big_prefix = 24 /\ load_trace E0 file_big_prefix = [Alloc 0]
   /\ load_result E0 file_big_prefix = Err EEof.
-Proof. exact alloc_bounded_refuted. Qed.
-Print Assumptions C20_alloc_bounded_refuted.
-
-(** what does hold: every request except possibly the LAST event of the trace is within
-    max(file size, 65535); and all of them are when the load succeeds *)
-Theorem C20_alloc_bounded_but_last : forall E bs, but_last (bound bs) (load_trace E bs).
-Proof. exact alloc_bounded_but_last. Qed.
-Print Assumptions C20_alloc_bounded_but_last.
-
-Theorem C20_alloc_bounded_on_success : forall E bs d rest,
-  load_result E bs = Ok d rest -> Forall (ev_le (bound bs)) (load_trace E bs).
-Proof. exact alloc_bounded_on_success. Qed.
-Print Assumptions C20_alloc_bounded_on_success.
+Proof. exact big_prefix_rejected. Qed.
+Print Assumptions C20_big_prefix_rejected.
 
 (** ** rejection of malformed headers and tags *)
 Theorem C20_truncated_header_rejected : forall E bs, blen bs < 16 -> exists e, load_binary E bs = ([], Err e).
